@@ -33,6 +33,7 @@ from rdflib.compare import graph_diff, isomorphic, to_canonical_graph, to_isomor
 
 warnings.filterwarnings("ignore", category=DeprecationWarning)
 import logging  # noqa: E402
+warnings.filterwarnings("ignore", message="Parsing weird boolean")
 logging.getLogger("rdflib.term").setLevel(logging.ERROR)   # "… does not look like a valid URI" for odd blank-node ids
 
 ID = "C14"
@@ -107,10 +108,45 @@ def mk_graph(triples):
     return g
 
 
+VIEWS = ["agg-disjoint", "agg-overlap", "agg-overlap", "agg-empty-member", "conjunctive", "simplememory", None]
+
+
+def mk_view(ts, view):
+    """one operand as a plain Graph, a ReadOnlyGraphAggregate over disjoint / overlapping member graphs (its __len__
+    sums the members, its iteration de-duplicates), a ConjunctiveGraph whose triples sit in two overlapping named
+    graphs (union view), or a Graph on the SimpleMemory store"""
+    from rdflib import ConjunctiveGraph
+    from rdflib.graph import ReadOnlyGraphAggregate
+    n = len(ts)
+    if view is None:
+        return mk_graph(ts)
+    if view == "simplememory":
+        g = Graph(store="SimpleMemory")
+        for t in ts:
+            g.add(tuple(T(x) for x in t))
+        return g
+    if view == "agg-disjoint":
+        parts = [ts[::2], ts[1::2]]
+    elif view == "agg-empty-member":
+        parts = [ts, [], ts[: n // 2]]
+    else:
+        parts = [ts[: (2 * n + 2) // 3], ts[n // 3:]]
+    if view == "conjunctive":
+        cg = ConjunctiveGraph()
+        for k, part in enumerate(parts):
+            ctx = cg.get_context(URIRef("http://e/ctx%d" % k))
+            for t in part:
+                ctx.add(tuple(T(x) for x in t))
+        return cg
+    return ReadOnlyGraphAggregate([mk_graph(part) for part in parts])
+
+
 def mk_pair_graphs(case):
     """the two graphs of a pair case; `ident` says how they are made: anonymous (None), the same explicit IRI or blank
     node identifier on two stores, the named graph of the same name in two datasets, or one and the same object"""
     ident = case.get("ident")
+    if case.get("views"):
+        return mk_view(case["g1"], case["views"][0]), mk_view(case["g2"], case["views"][1])
     if ident in (None, "anonymous"):
         return mk_graph(case["g1"]), mk_graph(case["g2"])
     if ident == "same-object":
@@ -635,6 +671,13 @@ IDENTS = [None, None, None, "same-iri", "same-iri", "same-bnode", "dataset", "sa
 
 
 def with_ident(rng, case):
+    if rng.random() < 0.22:
+        v1, v2 = rng.choice(VIEWS), rng.choice(VIEWS)
+        if v1 is None and v2 is None:
+            v1 = "agg-overlap"
+        case["ident"] = None
+        case["views"] = [v1, v2]
+        return case
     ident = rng.choice(IDENTS)
     if ident == "same-object":
         case = {**case, "g2": [list(t) for t in case["g1"]], "how": "same-object", "map": None}
@@ -711,17 +754,24 @@ K2_IDS = [lambda i: "x/../b" if i == 0 else "b" if i == 1 else "n%d" % i, lambda
           lambda i: "x/.well-known/genid/rdflib/y" if i == 0 else "n%d" % i, lambda i: ".." if i == 0 else "n%d" % i]
 
 
-def k2_ids(triples):
-    """blank-node ids with a '.' / '..' path segment (urljoin removes them) or containing the genid path"""
+def k2_ids(triples, base=None):
+    """blank-node ids with a '.' / '..' path segment (urljoin removes them), containing the genid path, or - when the
+    basepath is RELATIVE - with an empty path segment (urljoin drops empty segments of relative references)"""
+    rel = base is not None and not base.startswith("/")
     return sorted({x for t in triples for x in (t[0], t[2]) if is_b(x)
-                   and (any(seg in (".", "..") for seg in x[2:].split("/")) or GENID in x)})
+                   and (any(seg in (".", "..") for seg in x[2:].split("/")) or GENID in x
+                        or (rel and "" in x[2:].split("/")[:-1]))})
+
+
+def k2_case(case):
+    return k2_ids(case["g"], sk_args(case)[1])
 
 
 SK_LABELS = ["b%d", "N%dabcdef0123456789", "x.%d-y", "%d", "a:%d", "é%d", "_%d", "cb%d", "B_%d.z"]
 
 
 SK_VARIANTS = {   # variant -> (authority, basepath) given to Graph.skolemize (None = rdflib's default)
-    "default": (None, None), "per-bnode": (None, None), "new-graph": (None, None),
+    "default": (None, None), "per-bnode": (None, None), "new-graph": (None, None), "partial": (None, None),
     "authority": ("http://example.org/", None),
     "external-basepath": ("http://example.org", GENID),          # de_skolemize takes the *external* genid branch
     "authority-basepath": ("http://b.example", GENID_R),
@@ -797,6 +847,25 @@ def gen_skolem(rng):
     variant = rng.choice(["default", "default", "authority", "per-bnode", "new-graph", "external-basepath",
                           "external-basepath", "authority-basepath", "custom", "custom", "custom"])
     case = {"kind": "skolem", "variant": variant, "g": g}
+    if rng.random() < 0.30 and lab:
+        # PARTIAL skolemisation: skolemize(bnode=b) for chosen nodes only, next to nodes that stay blank
+        bsub = {t[0] for t in g if is_b(t[0])}
+        bobj_of_blank = sorted({t[2] for t in g if is_b(t[2]) and is_b(t[0])})
+        kind = rng.choice(["objects-of-blank", "objects-of-blank", "one", "some", "subjects-only"])
+        if kind == "objects-of-blank" and bobj_of_blank:
+            sel = rng.sample(bobj_of_blank, rng.randint(1, min(2, len(bobj_of_blank))))
+        elif kind == "subjects-only":
+            only = sorted(bsub - {t[2] for t in g if is_b(t[2])})
+            sel = rng.sample(only, 1) if only else [rng.choice(sorted(bn_of(g)))]
+        elif kind == "one":
+            sel = [rng.choice(sorted(bn_of(g)))]
+        else:
+            allb = sorted(bn_of(g))
+            sel = rng.sample(allb, rng.randint(1, len(allb)))
+        case["variant"] = "partial"
+        case["sel"] = sel
+        case["back"] = rng.choice(["full", "full", "uriref-genid", "uriref-plain"])
+        return case
     if variant == "custom":
         case["authority"], case["basepath"] = rng.choice(SK_AUTHORITIES), rng.choice(SK_BASEPATHS)
     return case
@@ -806,8 +875,14 @@ def gen_skolem_big(rng, variant):
     """LARGE star/forest (1500-2500 blank nodes): a few hubs are the OBJECT of spokes inserted at the start, in the
     middle and at the end, so that in the store's iteration order (by subject) each hub recurs after more than a
     thousand other new nodes; spokes also carry an index literal.  Generated from the parameters in `run_impl`."""
-    return {"kind": "skolem-big", "variant": variant, "n": rng.randint(1500, 2500), "hubs": rng.randint(1, 3),
+    case = {"kind": "skolem-big", "variant": variant, "n": rng.randint(1500, 2500), "hubs": rng.randint(1, 3),
             "chain": rng.random() < 0.5, "salt": rng.randrange(10 ** 6)}
+    if variant == "external-basepath":
+        # several graphs one after the other in ONE process: the module-level `skolems` table of rdflib.term sees more
+        # than 4500 distinct external skolem IRIs before the last graph is checked
+        case["seq"] = 3
+        case["n"] = rng.randint(1500, 1900)
+    return case
 
 
 def big_graph(case):
@@ -903,6 +978,10 @@ def sk_term(x, lits):
 def skolem_line(case):
     auth, base = sk_args(case)
     lits = {}
+    if case["variant"] == "partial":
+        return "skolemsel %s %s %s %d %s %s" % ("full" if case["back"] == "full" else "uriref", cps("https://rdflib.github.io"), cps(GENID_R), len(case["sel"]),
+                                             " ".join(sk_term(b, lits) for b in case["sel"]),
+                                             " ".join(sk_term(x, lits) for t in case["g"] for x in t))
     return "skolem %s %s %s" % (cps(auth or "https://rdflib.github.io"), cps(base or GENID_R),
                                 " ".join(sk_term(x, lits) for t in case["g"] for x in t))
 
@@ -921,7 +1000,7 @@ def model_lines(case):
         l = pair_model_line(case)
         return [l, "diff"] if l else []
     if case["kind"] == "skolem":
-        return [] if k2_ids(case["g"]) else [skolem_line(case)]
+        return [] if k2_case(case) else [skolem_line(case)]
     if case["kind"] == "exh":
         g, partners, rel = exh_graphs(case)
         return [iso_line(g, h) for h in partners + rel]
@@ -1085,6 +1164,8 @@ def run_pair(case):
     s1, s2 = set(g1), set(g2)
     viol, obs, stats = [], [], {"pair": 1, "fam_" + case["fam"].split("|")[0]: 1, "how_" + case["how"]: 1,
                                 "ident_" + (case.get("ident") or "anonymous"): 1}
+    for v in case.get("views") or []:
+        stats["view_" + (v or "plain")] = stats.get("view_" + (v or "plain"), 0) + 1
     nb = max(len(bn_of(g1s)), len(bn_of(g2s)))
     stats["bnodes_%s" % ("0" if nb == 0 else "1-4" if nb <= 4 else "5-8" if nb <= 8 else "9-12" if nb <= 12 else "13+")] = 1
 
@@ -1223,6 +1304,21 @@ def run_skolem(case):
     def roundtrip():
         v = case["variant"]
         auth, base = sk_args(case)
+        if v == "partial":
+            from rdflib.term import Genid, RDFLibGenid
+            sk = g
+            iris = []
+            for b in case["sel"]:
+                sk = sk.skolemize(bnode=BNode(b[2:]))
+                iris.append(BNode(b[2:]).skolemize())
+            if case["back"] == "full":
+                return set(sk), set(sk.de_skolemize())
+            back = sk
+            for u in iris:
+                # an id with '?', '#' or ';' gives an IRI that is an external genid, not an rdflib one
+                cls = Genid if any(ch in str(u).rsplit("/", 1)[-1] for ch in "?#;") else RDFLibGenid
+                back = back.de_skolemize(uriref=cls(u) if case["back"] == "uriref-genid" else u)
+            return set(sk), set(back)
         if auth is not None:
             sk = g.skolemize(authority=auth, basepath=base)
         elif v == "per-bnode":
@@ -1248,6 +1344,10 @@ def run_skolem(case):
     outside = sk_outside(*sk_args(case))
     if outside:
         stats["skolem_outside_claim_observed_only"] = 1
+    if case["variant"] == "partial":
+        stats["skolem_partial_back_" + case["back"]] = 1
+        if any(is_b(t[0]) and t[2] in case["sel"] and t[0] not in case["sel"] for t in gs):
+            stats["skolem_partial_skolem_object_of_blank_subject"] = 1
     if "authority" in case:
         stats["skolem_authority_%s" % ("with-path" if sk_args(case)[0].count("/") > 2 and not sk_args(case)[0].endswith("org/") else "host-only")] = 1
         stats["skolem_basepath_%s" % ("absolute" if sk_args(case)[1].startswith("/") else "relative")] = 1
@@ -1262,7 +1362,7 @@ def run_skolem(case):
         if got != [good]:
             raise RuntimeError(f"ORACLE DISAGREEMENT (skolem) isoutil={good} lean={got} case={case}")
     nb = len(bn_of(gs))
-    k2 = k2_ids(gs)
+    k2 = k2_case(case)
     if k2:
         stats["skolem_ids_skolemize_cannot_encode"] = 1
     if any(is_b(x) and any(ch in x for ch in "/#?% ;<>") for t in gs for x in (t[0], t[2])):
@@ -1366,6 +1466,18 @@ def wl_profile(triples, rounds=3):
 
 
 def run_skolem_big(case):
+    if case.get("seq", 1) > 1:
+        res = None
+        for k in range(case["seq"]):
+            r = run_skolem_big({**case, "seq": 1, "salt": case["salt"] + k})
+            if res is None:
+                res = r
+            else:
+                res["viol"] += ["%s (graph %d of a sequence in one process)" % (v, k + 1) for v in r["viol"]]
+                for kk, vv in r["stats"].items():
+                    res["stats"][kk] = res["stats"].get(kk, 0) + vv
+        res["stats"]["skolem_big_sequences"] = 1
+        return res
     gs = big_graph(case)
     g = mk_graph(gs)
     viol, stats = [], {"skolem_big": 1, "skolem_big_" + case["variant"]: 1, "skolem_big_triples": len(gs)}
@@ -1448,8 +1560,11 @@ def shrink(case):
         g = case["g"]
         for i in range(len(g)):
             yield {**case, "g": g[:i] + g[i + 1:]}
-        if case["variant"] != "default":
+        if case["variant"] not in ("default", "partial"):
             yield {**case, "variant": "default"}
+        if case["variant"] == "partial" and len(case["sel"]) > 1:
+            for b in case["sel"]:
+                yield {**case, "sel": [x for x in case["sel"] if x != b]}
         return
     if case["kind"] == "hist":
         ops = case["ops"]
@@ -1462,6 +1577,8 @@ def shrink(case):
                 for j in range(len(ts)):
                     yield {**case, "ops": ops[:i] + [[kind, ts[:j] + ts[j + 1:]]] + ops[i + 1:]}
         return
+    if case["kind"] == "skolem-big" and case.get("seq", 1) > 1:
+        return      # the sequence is the point: the state of the process matters
     if case["kind"] == "skolem-big":
         if case["n"] > 1100:
             yield {**case, "n": max(1100, case["n"] // 2)}
@@ -1549,7 +1666,7 @@ def _m_dotseg(case, result):
     the genid path: the same graph with those ids replaced by plain ones round-trips"""
     if case.get("kind") != "skolem" or not result["viol"] or any(v.split(":")[0] != "skolem" for v in result["viol"]):
         return False
-    bad = k2_ids(case["g"])
+    bad = k2_case(case)
     if not bad:
         return False
     ren = {b: "_:plainid%d" % k for k, b in enumerate(bad)}
@@ -1557,5 +1674,11 @@ def _m_dotseg(case, result):
     return not run_skolem(clean)["viol"]
 
 
-MATCHERS = {"dot_segment_or_genid_in_bnode_id": _m_dotseg, "genid_iri_in_input": _m_genid, "langtag_case": _m_langtag, "traces_unverified_generator": _m_traces,
+def _m_uriref(case, result):
+    """(fixed, C14-F4) partial skolemisation undone with de_skolemize(uriref=…)"""
+    return (case.get("kind") == "skolem" and case.get("variant") == "partial" and case.get("back") != "full"
+            and bool(result["viol"]))
+
+
+MATCHERS = {"deskolemize_uriref_mode": _m_uriref, "dot_segment_or_genid_in_bnode_id": _m_dotseg, "genid_iri_in_input": _m_genid, "langtag_case": _m_langtag, "traces_unverified_generator": _m_traces,
             "traces_equal_trace_leaves": _m_traces_leaves}
